@@ -154,8 +154,34 @@ func VerifUpdate(p *VipnodePool, ctx context.Context, nodeID string, peers ...st
 }
 
 // VerifConnect performs a correctly signed vipnode_connect on connection svc.
+// verifLegacySeq numbers the registrations that may go through the deprecated endpoint.
+var verifLegacySeq int
+
+// VerifRegisterHost registers a host with vipnode_connect or - with the
+// harness parameter legacy_host=1, as a symbolic choice per registration -
+// with the deprecated vipnode_host endpoint, which is documented as a
+// backport onto the same code.
+func VerifRegisterHost(p *VipnodePool, ctx context.Context, nodeID string, req ConnectRequest) error {
+	nonce := VerifFreshNonce()
+	verifLegacySeq++
+	if verifapi.Param("legacy_host", 0) == 1 && verifapi.Bool(fmt.Sprint("via-vipnode_host#", verifLegacySeq)) {
+		hreq := HostRequest{Kind: req.NodeInfo.Kind.String(), Payout: req.Payout, NodeURI: req.NodeURI}
+		_, err := p.Host(ctx, sigs.SignFor(nodeID, "vipnode_host", nonce, hreq), nodeID, nonce, hreq)
+		return err
+	}
+	_, err := p.Connect(ctx, sigs.SignFor(nodeID, "vipnode_connect", nonce, req), nodeID, nonce, req)
+	return err
+}
+
 func VerifConnect(p *VipnodePool, svc *VerifHost, nodeID string, full bool, payout string) (*ConnectResponse, error) {
 	req := ConnectRequest{NodeInfo: ethnode.UserAgent{Kind: ethnode.Geth, IsFullNode: full}, Payout: payout}
+	if full && verifapi.Param("legacy_host", 0) == 1 {
+		err := VerifRegisterHost(p, jsonrpc2.VerifCtxWithService(context.Background(), svc), nodeID, req)
+		if err != nil {
+			return nil, err
+		}
+		return &ConnectResponse{}, nil
+	}
 	nonce := VerifFreshNonce()
 	sig := sigs.SignFor(nodeID, "vipnode_connect", nonce, req)
 	ctx := jsonrpc2.VerifCtxWithService(context.Background(), svc)
